@@ -113,6 +113,8 @@ def insertion_points(ir, loops=False):
     """[(steps, index, certain)] — certain: a statement there is certainly assembled"""
     pts = []
     called = _called_macros(ir)
+    macros = {}
+    twins.walk(ir, lambda st, im: macros.setdefault(st["n"], st) if st["k"] == "macro" else None)
 
     def go(stmts, steps, certain, in_code_arg=False):
         for i in range(len(stmts) + 1):
@@ -128,6 +130,14 @@ def insertion_points(ir, loops=False):
             elif k == "for":
                 lit = st["lo"][0] == "lit" and st["hi"][0] == "lit" and st["hi"][1] > st["lo"][1]
                 go(st["b"], steps + ((i, "b"),), certain and loops and lit)
+            elif k == "call":
+                # a block handed to a macro is assembled where the body splices it: certain when the call is and the
+                # macro body splices that parameter unconditionally
+                mdef = macros.get(st["n"])
+                for j, a in enumerate(st["args"]):
+                    if isinstance(a, dict) and "code" in a:
+                        spliced = mdef is not None and j < len(mdef["ps"]) and any(b["k"] == "splice" and b["p"] == mdef["ps"][j] for b in mdef["b"])
+                        go(a["code"], steps + ((i, ("args", j, "code")),), certain and spliced)
             elif k == "if":
                 taken = st["c"][0] == "lit" and st["c"][1] != 0
                 go(st["t"], steps + ((i, "t"),), certain and taken)
